@@ -714,5 +714,21 @@ theorem updateMetadata_crtime_fallback (old : Meta) (new : Option Meta) (now : N
   simp only [lookup_put, hne, if_false, hno, Option.isSome_none, Bool.false_eq_true, if_true]
   rw [hx]
 
+/-! ### the retry loop -/
+
+theorem retryLoop_spec {R R' : Type} (f : R → R') (modifier : Bool → Children Name C → Except Err R)
+    (smod : Bool → AMap Name C → Except Err R')
+    (h : ∀ first c, (modifier first c).map f = smod first (absC c)) (first : Bool) (c : Children Name C)
+    (reads : List (Children Name C)) :
+    (retryLoop modifier first c reads).map f = specRetryLoop smod first (absC c) (reads.map absC) := by
+  induction reads generalizing first c with
+  | nil => exact h first c
+  | cons c' more ih =>
+    simp only [retryLoop, specRetryLoop, List.map_cons]
+    have h1 := h first c
+    cases hm : modifier first c with
+    | error e => rw [hm] at h1; simp only [Except.map] at h1; rw [← h1]; rfl
+    | ok r => rw [hm] at h1; simp only [Except.map] at h1; rw [← h1]; exact ih false c'
+
 end
 end Tahoe.Dir.Edit
